@@ -19,6 +19,8 @@ from concurrent.futures import ThreadPoolExecutor
 REPO = '/repo'
 VERIF = os.path.dirname(os.path.dirname(os.path.abspath(__file__)))
 PY = '/venv/bin/python'
+PREFIX = os.environ.get('SEED_PREFIX', 'mut_')      # candidate directories are <root>/<PREFIX><id>/<k>
+OFFSET = int(os.environ.get('SEED_OFFSET', '0'))     # stored as seeded/<id>/<k + OFFSET>
 
 
 def sh(cmd, cwd=None, env=None, timeout=1800):
@@ -27,8 +29,8 @@ def sh(cmd, cwd=None, env=None, timeout=1800):
 
 
 def confirm(root, pid, k):
-    src = os.path.join(root, f'mut_{pid}', str(k))
-    wt = f'/tmp/sw_{pid}_{k}'
+    src = os.path.join(root, f'{PREFIX}{pid}', str(k))
+    wt = f'/tmp/sw_{PREFIX}{pid}_{k}'
     res = {'id': pid, 'k': k, 'src': src}
     sh(f'git -C {REPO} worktree remove --force {wt}')
     shutil.rmtree(wt, ignore_errors=True)
@@ -79,8 +81,8 @@ def run_checks(pid, k, src, checks):
 
 def main():
     root = sys.argv[1]
-    ids = sys.argv[2:] or sorted({d[4:] for d in os.listdir(root) if d.startswith('mut_C')})
-    jobs = [(pid, k) for pid in ids for k in (1, 2) if os.path.isdir(os.path.join(root, f'mut_{pid}', str(k)))]
+    ids = sys.argv[2:] or sorted({d[len(PREFIX):] for d in os.listdir(root) if d.startswith(PREFIX + 'C')})
+    jobs = [(pid, k) for pid in ids for k in (1, 2) if os.path.isdir(os.path.join(root, f'{PREFIX}{pid}', str(k)))]
     with ThreadPoolExecutor(8) as ex:
         results = list(ex.map(lambda j: confirm(root, *j), jobs))
     for r in results:
@@ -96,7 +98,7 @@ def main():
         checks = [pid] + [c for c in related if c != pid]
         r['checks'] = run_checks(pid, k, r['src'], checks)
         print('   checks:', {c: (v['rc'], v['violations']) for c, v in r['checks'].items()}, flush=True)
-        dst = os.path.join(VERIF, 'seeded', pid, str(k))
+        dst = os.path.join(VERIF, 'seeded', pid, str(k + OFFSET))
         os.makedirs(dst, exist_ok=True)
         for f in ('patch.diff', 'demo.py'):
             shutil.copy(os.path.join(r['src'], f), os.path.join(dst, f))
@@ -109,7 +111,7 @@ def main():
             'caught_by': [c for c, v in r['checks'].items() if v['rc'] == 1 and v['violations']],
         }
         json.dump(meta, open(os.path.join(dst, 'meta.json'), 'w'), indent=1)
-    json.dump(results, open('/var/tmp/w/curate_results.json', 'w'), indent=1, default=str)
+    json.dump(results, open(f'/var/tmp/w/curate_results_{PREFIX}.json', 'w'), indent=1, default=str)
 
 
 if __name__ == '__main__':
